@@ -92,7 +92,7 @@ func GenHistory(rt *rapid.T, o GenOpts) History {
 	for _, k := range focus {
 		switch k {
 		case Samples, Series:
-			protos = append(protos, "loki", "prom")
+			protos = append(protos, "loki", "prom", "mixed")
 		case Metrics:
 			protos = append(protos, "prom")
 		case Spans, Tags:
@@ -152,6 +152,16 @@ func GenHistory(rt *rapid.T, o GenOpts) History {
 			refused++
 		}
 		h.Actions = append(h.Actions, a)
+		if a.Op == "push" && a.Rows <= 8 {
+			// second and later requests appended into non-empty columns are where offset bugs
+			// live: every other push is followed by one or two more of the same service
+			for extra := (len(h.Actions) + a.Rows + a.Wide) % 4; extra >= 2; extra-- {
+				b := a
+				b.Rows = 1 + (a.Rows+extra)%5
+				b.Wide = []int{0, 5, 40}[(a.Wide+extra)%3]
+				h.Actions = append(h.Actions, b)
+			}
+		}
 		if a.Op == "http" && a.Tail {
 			// the push is queued; its INSERT fails once (retried parts are re-submitted while later
 			// chunks of the same body sit in the queue), then everything is let through
@@ -182,7 +192,7 @@ func DrawRetries(rt *rapid.T, c *Config) {
 // service whose flush asks for the flush of the second (OnBeforeInsert).
 func KindsOfProto(proto string) []Kind {
 	switch proto {
-	case "loki", "prom":
+	case "loki", "prom", "mixed":
 		return []Kind{Samples, Series}
 	case "zipkin", "otlp":
 		return []Kind{Spans, Tags}
@@ -529,6 +539,8 @@ func RunHistory(h History) *Trace {
 				}
 			}
 			kind := KindOfCall(target)
+			// more waiters per promise, their first Get placed around the instant of Done
+			hs.Rec.ArmWaiters(KindOfCall(target), 3, func(j int) int { return (i*131 + j*977) % 2500 })
 			// give promise watchers every chance to run before the INSERT ends: an answer that
 			// precedes the end of its INSERT must get the smaller sequence number
 			for j := 0; j < 3; j++ {
